@@ -196,6 +196,25 @@ func (r *runner) allStringsQuiet(e *entry, scope string, alpha []byte, maxLen in
 
 // ---------------------------------------------------------------- (b) corpus perturbations
 
+var (
+	corpusMu     sync.Mutex
+	corpusPanics []string
+)
+
+// safeEncode encodes a corpus value built with the library's constructors. A
+// panic there is outside this property (the value was constructed, not decoded):
+// the base is dropped and the fact recorded in the evidence; if the defect is
+// reachable from a decoded value the observer reports it.
+func safeEncode(name string, f func() []byte) (b []byte, ok bool) {
+	if pv, st := fw.Safe(func() { b = append([]byte(nil), f()...) }); pv != nil {
+		corpusMu.Lock()
+		corpusPanics = append(corpusPanics, fmt.Sprintf("%s: panic: %v at %s", name, pv, fw.PanicSite(st)))
+		corpusMu.Unlock()
+		return nil, false
+	}
+	return b, true
+}
+
 type job struct {
 	e    *entry
 	name string
@@ -206,7 +225,11 @@ type job struct {
 
 func v6Bases(thorough bool) []named {
 	var out []named
-	enc := func(n string, m dhcpv6.DHCPv6) { out = append(out, named{n, append([]byte(nil), m.ToBytes()...)}) }
+	enc := func(n string, m dhcpv6.DHCPv6) {
+		if b, ok := safeEncode(n, m.ToBytes); ok {
+			out = append(out, named{n, b})
+		}
+	}
 	ins := corpus6.Instances()
 	for _, in := range ins {
 		in := in
@@ -269,7 +292,10 @@ func runCorpus(r *runner, ord *int64) {
 	// single options, DUIDs, label lists
 	nOpt, nDuid, nLab := 0, 0, 0
 	for _, in := range append(corpus6.Instances(), corpus6.NTPSubInstances()...) {
-		p := append([]byte(nil), in.Build().ToBytes()...)
+		p, ok := safeEncode("option("+in.Name+")", func() []byte { return in.Build().ToBytes() })
+		if !ok {
+			continue
+		}
 		var lfs []lenField
 		switch in.Code {
 		case 15, 60:
@@ -306,7 +332,10 @@ func runCorpus(r *runner, ord *int64) {
 	}
 	nVal6 := 0
 	for _, in := range append(corpus6.Reduced(), corpus6.NTPSubInstances()...) {
-		p := append([]byte(nil), in.Build().ToBytes()...)
+		p, ok := safeEncode("value-of("+in.Name+")", func() []byte { return in.Build().ToBytes() })
+		if !ok {
+			continue
+		}
 		for _, e := range typedV6 {
 			jobs = append(jobs, job{e, "value-of(" + in.Name + ")", p, nil, ""})
 			nVal6++
@@ -375,6 +404,11 @@ func runCorpus(r *runner, ord *int64) {
 		names = append(names, b.name)
 	}
 	r.c.Extra("v4_corpus", names)
+	corpusMu.Lock()
+	if len(corpusPanics) > 0 {
+		r.c.Extra("corpus_values_dropped_because_encoding_them_panicked", corpusPanics)
+	}
+	corpusMu.Unlock()
 	r.c.Sample(map[string]any{"scope": "b", "base": v6[0].name, "hex": fw.Hex(v6[0].b)})
 	r.c.Sample(map[string]any{"scope": "b", "base": v4[0].name, "hex": fw.HexShort(v4[0].b)})
 }
